@@ -675,6 +675,9 @@ func (fr *Frame) convert(x *ssa.Convert) {
 				arr := fr.q.get(fr.cur.st, lf.Arr)
 				fr.q.assume(fr.cur.reach, fmt.Sprintf("(= (slen %s) %s)", s, a.C[1]))
 				fr.tick("(+ 1 " + a.C[1] + ")") // the conversion copies the bytes
+				if fr.q.opts.OnBytesToString != nil {
+					fr.q.opts.OnBytesToString(fr, x, a, Val{C: []string{s}})
+				}
 				if !fr.q.optsNoContents() {
 					fr.q.assume(fr.cur.reach, fmt.Sprintf("(forall ((i Int)) (! (=> (and (<= 0 i) (< i %s)) (= (sat %s i) (select %s (+ %s i)))) :pattern ((sat %s i))))", a.C[1], s, arr, a.C[0], s))
 				}
@@ -699,6 +702,9 @@ func (fr *Frame) convert(x *ssa.Convert) {
 				}
 				fr.cur.st.v[lf.Arr] = na
 				fr.setVal(x, Val{C: []string{p, n, n}})
+				if fr.q.opts.OnStringToBytes != nil {
+					fr.q.opts.OnStringToBytes(fr, x, a, Val{C: []string{p, n, n}})
+				}
 				return
 			}
 		}
